@@ -133,13 +133,17 @@ func runEpochUnit(c *Ctx, pl epochPlan, u epochUnit) {
 	}
 	ex.OnPanic = func(x *Exec, r interface{}, stack string) {
 		msg := fmt.Sprintf("panic during %s: %v", u.sc.String(), r)
+		clause := "panic"
+		if u.sc.Seed == "randsp" && isGenelessSymptom(fmt.Sprint(r)) {
+			clause = "panic@random-population-single-point-geneless-child"
+		}
 		st := stack
 		if i := strings.Index(st, "goNEAT"); i > 0 && len(st) > i+600 {
 			st = st[:i+600]
 		}
 		rp := &Replay{Scenario: "epochs", Params: u.sc.params(), Answers: x.Answers(), Clause: msg, Trace: st}
 		rp.Params["prop"] = pl.prop
-		c.ViolateOrd(pl.prop+"/panic", int64(len(x.Points)), msg, rp)
+		c.ViolateOrd(pl.prop+"/"+clause, int64(len(x.Points)), msg, rp)
 	}
 	// horizon: 20x the draws of the base execution
 	ex.Horizon = 400000
